@@ -20,8 +20,8 @@ from . import locate
 from .ty import *      # noqa
 
 STR_POOL = ["", "a.py", "b/a.py", "a.py:3", "*a.py:3", "*.py", "b/**", "a.py:1", "x", ":", "3", "r1", "r2", "open", "*a.py:1",
-            "a.py:2", "/t/a.py:3", "/t/b/a.py:1", "b/a.py:1"]
-PATH_POOL = [Path("/t/a.py"), Path("/t/b/a.py"), Path("/t"), Path("a.py"), Path("b/a.py"), Path("/t/c.py")]
+            "a.py:2", "/pyvc-none/t/a.py:3", "/pyvc-none/t/b/a.py:1", "b/a.py:1"]
+PATH_POOL = [Path("/pyvc-none/t/a.py"), Path("/pyvc-none/t/b/a.py"), Path("/pyvc-none/t"), Path("a.py"), Path("b/a.py"), Path("/pyvc-none/t/c.py")]
 INT_POOL = [1, 2, 3, 1, 2, 3, 0, 1, 2, 4, -1]
 
 
